@@ -676,7 +676,13 @@ def judge_spans(run: Run, traces: list[dict], own: tuple[str, ...], batch_spans:
         nonlocal ts, ft, cur_spans, cur_src
         if cur_spans:
             path = os.path.join(run.workdir, f"spans_{len(batches):04d}.json")
-            clean = [{k: v for k, v in sp.items() if not k.startswith("_")} for sp in cur_spans]
+            clean = []
+            for sp in cur_spans:
+                d = {k: v for k, v in sp.items() if not k.startswith("_")}
+                if not d["decode"] and not d["single"] and d["res"]:
+                    # only the keys of the result are judged for this span (C14/C15/C18): drop the values
+                    d["res"] = {k: 0 for k in d["res"]}
+                clean.append(d)
             tlc.write_json(path, {"frames": ft.frames + [[]], "labels": ts.labels, "tables": ts.tables, "spans": clean})
             batches.append((path, cur_spans, cur_src))
         ts, ft, cur_spans, cur_src = TableSet(), FrameTab(), [], []
